@@ -667,6 +667,9 @@ func (e *Engine) verifyFunc(key string, sem chan struct{}) *FuncResult {
 		for _, c := range con.AssertAt {
 			c.sites = 0
 		}
+		for _, g := range con.GhostAt {
+			g.sites = 0
+		}
 		for _, cs := range con.CallPre {
 			for _, c := range cs {
 				c.sites = 0
@@ -689,6 +692,11 @@ func (e *Engine) verifyFunc(key string, sem chan struct{}) *FuncResult {
 					// into a helper, out of reach of this contract)
 					fr.Errors = append(fr.Errors, fmt.Sprintf("callpre %s %q applies at no call site of this function", n, c.Text))
 				}
+			}
+		}
+		for _, g := range con.GhostAt {
+			if g.sites == 0 {
+				fr.Errors = append(fr.Errors, fmt.Sprintf("ghostat %q#%d: no such source line in the function", g.Loc, g.Nth))
 			}
 		}
 		for _, c := range con.AssertAt {
